@@ -421,6 +421,13 @@ func TestVerifC10(t *testing.T) {
 			scs = append(scs, hx.Scenario{Name: "seq/first=" + a + "," + b, Opt: vrt.Options{Bound: 0}, Body: c10body([]string{a, b}, maxLen, false), Verdict: c10verdict})
 		}
 	}
+	if hx.Thorough() {
+		// shorter histories with every single departure from the default schedule (the routing goroutine
+		// that handles an <a/> running late or early relative to the receive loop and the sender)
+		for _, a := range c10ops {
+			scs = append(scs, hx.Scenario{Name: "seq-dev1/first=" + a, Opt: vrt.Options{Bound: 1, TouchOn: []string{"Uslice"}}, Body: c10body([]string{a}, 3, false), Verdict: c10verdict})
+		}
+	}
 	for _, a := range c10ops {
 		scs = append(scs, hx.Scenario{Name: "after-refused-resumption/first=" + a, Opt: vrt.Options{Bound: 0}, Body: c10body([]string{a}, maxLen-1, true), Verdict: c10verdict})
 	}
